@@ -218,6 +218,16 @@ func genMetaPlan(c *Chooser, p *RPCPlan, binMode int) {
 	case 3: // credentials on top of outgoing metadata
 		p.ReqMD = genMDMode(c, 3, binMode)
 		p.Creds = &SimCreds{MD: map[string]string{"cred-a": "1", "cred-b": fmt.Sprintf("v%d", c.Intn(100, "credv"))}}
+		if p.ID%2 == 0 {
+			// a credential key spelled with capitals that the outgoing
+			// metadata also carries: keys are case-insensitive, the handler
+			// sees one lower-case key with both values
+			if p.ReqMD == nil {
+				p.ReqMD = metadata.MD{}
+			}
+			p.ReqMD.Append("sim-mixed", "from-context")
+			p.Creds.MD["Sim-Mixed"] = "from-credentials"
+		}
 	case 4: // credentials and no outgoing metadata at all
 		p.NoOutgoingMD = true
 		p.Creds = &SimCreds{MD: map[string]string{"sim-rpc": strconv.Itoa(p.ID), "cred-a": "1"}}
